@@ -222,7 +222,7 @@ func partHistories(rp *reporter, thorough bool) *histStats {
 		}
 		rule = fmt.Sprintf("all sequences of length 3 over {SetLevel(l): 7 named levels + InvalidLevel} + {log at each of the 7 named levels and -2, invalid, 127 from each of %d family members (parent, With child, Named child, Sugar, IncreaseLevel(warn) child, WithLazy child)}, and all sequences of length 4 with log levels {debug, warn, fatal}", nFamily)
 	}
-	rule += fmt.Sprintf(", each replayed on a fresh family built on each of %d base cores %v from each of the 8 start values of the AtomicLevel; every call is compared with the reference evaluator (leaves, hooks, marshaler, sinks) and after construction (once per first symbol) and after every SetLevel every member's Enabled (12 boundary levels) and Level are compared; states = distinct (base, start value, current value) reached, transitions = steps executed", len(histBases), histBases)
+	rule += fmt.Sprintf(", each replayed on a fresh family built on each of %d base cores %v from each of the 8 start values of the AtomicLevel; every call is compared with the reference evaluator (leaves, hooks, marshaler, sinks) and after construction (once per first symbol) and after every SetLevel every member's Enabled (the boundary levels) and Level are compared; states = distinct (base, start value, current value) reached, transitions = steps executed", len(histBases), histBases)
 	var sbases []*node
 	for _, s := range histSamplerBases {
 		n, err := parseTree(s)
